@@ -42,6 +42,8 @@ CALL_GUARDS = {
     # own appends in bidib_node_try_queued_messages are not)
     "bidib_buffer_message:bidib_add_to_buffer": "bidib_send_order_mutex",
 }
+# globals into which pointers are handed out (pointer taint)
+TAINT_GLOBALS = {"bidib_boards", "bidib_trains", "node_state_table"}
 THREAD_MAINS = ["bidib_auto_receive", "bidib_auto_flush", "bidib_heartbeat_log"]
 # public functions the README excludes from concurrent use (start/stop/reset) or that only set modes
 NOT_THREADSAFE = {"bidib_start_pointer", "bidib_start_serial", "bidib_stop", "bidib_set_lowlevel_debug_mode",
@@ -124,17 +126,98 @@ class Translator:
         # function-pointer parameters: collect targets passed at call sites
         for name, (o, f) in self.raw.items():
             self.scan_fp_args(o)
+        self.accsum = {}; self.retsum = {}
+        self.translate_all(False)
+        # transitive set of guarded globals each function touches (for the pointer taint of pass 2)
+        direct = {}; calls = {}
+        def walk(ir, acc, cl):
+            if ir[0] == "acc": acc.add(ir[1])
+            elif ir[0] == "call": cl.add(ir[1])
+            for x in ir[1:]:
+                if isinstance(x, tuple) and x and isinstance(x[0], str): walk(x, acc, cl)
+        for n, fn in self.fns.items():
+            a = set(); c = set(); walk(fn.body, a, c); direct[n] = a; calls[n] = c
+        changed = True
+        self.accsum = {n: set(direct[n]) for n in self.fns}
+        while changed:
+            changed = False
+            for n in self.fns:
+                for c in calls[n]:
+                    if c in self.accsum and not self.accsum[c] <= self.accsum[n]:
+                        self.accsum[n] |= self.accsum[c]; changed = True
+        # what the pointer returned by a function points into: the guarded globals that occur in its
+        # return expressions (through tainted locals and pointer-returning callees), to a fixpoint
+        self.retsum = {n: set() for n in self.fns}
+        for _ in range(4):
+            self.translate_all(True, collect_returns=True)
+        self.translate_all(True)
+
+    def translate_all(self, with_taint, collect_returns=False):
         for name, (o, f) in self.raw.items():
             params = [c for c in o.get("inner", []) if c.get("kind") == "ParmVarDecl"]
             body = [c for c in o.get("inner", []) if c.get("kind") == "CompoundStmt"][0]
             self.cur = name; self.cur_params = [p.get("name") for p in params]
             self.cur_locals = set(self.cur_params)
+            ptr_locals = set()
             def collect(n):
                 if isinstance(n, dict):
-                    if n.get("kind") == "VarDecl" and n.get("storageClass") != "static" and n.get("storageClass") != "extern": self.cur_locals.add(n.get("name"))
+                    if n.get("kind") == "VarDecl" and n.get("storageClass") != "static" and n.get("storageClass") != "extern":
+                        self.cur_locals.add(n.get("name"))
+                        if "*" in n.get("type", {}).get("qualType", ""): ptr_locals.add(n.get("name"))
                     for c in n.get("inner", []) or []: collect(c)
             collect(body)
             self.cur_ptypes = [p.get("type", {}).get("qualType", "") for p in params]
+            self.taint = {}
+            if with_taint:
+                # flow-insensitive, one level: a local pointer assigned from an expression that touches a
+                # guarded global (directly, or through a pointer-returning library function that does) is
+                # treated as pointing into that global; dereferencing it is an access to the global
+                def sources(e, out):
+                    if not isinstance(e, dict): return
+                    k = e.get("kind")
+                    if k == "DeclRefExpr":
+                        rd = e.get("referencedDecl", {})
+                        if rd.get("kind") == "VarDecl" and rd.get("name") in TAINT_GLOBALS and rd.get("name") not in self.cur_locals: out.add(rd["name"])
+                        if rd.get("kind") == "VarDecl" and rd.get("name") in self.taint: out.update(self.taint[rd["name"]])
+                    if k == "MemberExpr":
+                        b = strip(e["inner"][0]) if e.get("inner") else None
+                        if b and b.get("kind") == "DeclRefExpr" and b["referencedDecl"].get("name") == "bidib_track_state":
+                            key = "bidib_track_state." + e.get("name", "")
+                            if key in self.guard_of: out.add(key)
+                    if k == "CallExpr":
+                        c = strip(e["inner"][0])
+                        if c.get("kind") == "DeclRefExpr" and c["referencedDecl"].get("kind") == "FunctionDecl":
+                            cn = c["referencedDecl"].get("name")
+                            rt = c["referencedDecl"].get("type", {}).get("qualType", "")
+                            if cn in self.raw:
+                                # a library function: only what its return value points into counts,
+                                # not what its arguments point into
+                                if "*" in rt.split("(")[0]: out.update(self.retsum.get(cn, set()))
+                                return
+                    for c in e.get("inner", []) or []: sources(c, out)
+                for _ in range(2):
+                    def scan(n):
+                        if not isinstance(n, dict): return
+                        if n.get("kind") == "VarDecl" and n.get("name") in ptr_locals and n.get("inner"):
+                            t = set(); sources(n["inner"][-1], t)
+                            if t: self.taint.setdefault(n["name"], set()).update(t)
+                        if n.get("kind") == "BinaryOperator" and n.get("opcode") == "=":
+                            l = strip(n["inner"][0])
+                            if l.get("kind") == "DeclRefExpr" and l["referencedDecl"].get("name") in ptr_locals:
+                                t = set(); sources(n["inner"][1], t)
+                                if t: self.taint.setdefault(l["referencedDecl"]["name"], set()).update(t)
+                        for c in n.get("inner", []) or []: scan(c)
+                    scan(body)
+                if collect_returns:
+                    rs = set()
+                    def rets(n):
+                        if not isinstance(n, dict): return
+                        if n.get("kind") == "ReturnStmt":
+                            for c in n.get("inner", []) or []: sources(c, rs)
+                        for c in n.get("inner", []) or []: rets(c)
+                    rets(body)
+                    self.retsum[name] = self.retsum.get(name, set()) | rs
+                    continue
             self.fns[name] = Fn(name, self.cur_params, self.stmt(body), f)
 
     def scan_fp_args(self, node):
@@ -225,6 +308,13 @@ class Translator:
             if rd.get("kind") == "VarDecl" and rd.get("name") in self.guard_of and self.is_global(rd):
                 return ("acc", self.glob_id(rd["name"]))
             return ("skip",)
+        if k in ("MemberExpr", "UnaryOperator", "ArraySubscriptExpr") and getattr(self, "taint", None):
+            isderef = (k == "MemberExpr" and e.get("isArrow")) or (k == "UnaryOperator" and e.get("opcode") == "*") or k == "ArraySubscriptExpr"
+            b0 = strip(e["inner"][0]) if e.get("inner") else None
+            if isderef and b0 and b0.get("kind") == "DeclRefExpr" and b0["referencedDecl"].get("name") in self.taint \
+               and b0["referencedDecl"].get("kind") == "VarDecl":
+                accs = [("acc", self.glob_id(g)) for g in sorted(self.taint[b0["referencedDecl"]["name"]])]
+                return self.seq(accs + [self.expr(c) for c in e.get("inner", [])[1:]])
         if k == "MemberExpr":
             base = strip(e["inner"][0]) if e.get("inner") else None
             if base and base.get("kind") == "DeclRefExpr" and base["referencedDecl"].get("name") == "bidib_track_state":
